@@ -8,29 +8,29 @@ open Rx Rx.Gen.Zip
 def absZip (g : ZipObserver) : St2 := .zip g.observer.isSome g.a g.b g.completed_one
 
 theorem tie_Zip_a_next (g : ZipObserver) (v : Val) :
-    (AObserver.next g v).map (fun r => (absZip r.1, r.2)) = some (St2.step (absZip g) .a (.next v)) := by
+    (AObserver.next g v).map (fun r => (absZip r.1, r.2)) = some (Rs.lift (St2.step (absZip g) .a (.next v))) := by
   rcases g with ⟨_ | _, qa, _ | ⟨w, qb⟩, c⟩ <;>
     rs_tie [AObserver.next, ZipObserver.next, absZip, St2.step, St2.guard]
 
 theorem tie_Zip_b_next (g : ZipObserver) (v : Val) :
-    (BObserver.next g v).map (fun r => (absZip r.1, r.2)) = some (St2.step (absZip g) .b (.next v)) := by
+    (BObserver.next g v).map (fun r => (absZip r.1, r.2)) = some (Rs.lift (St2.step (absZip g) .b (.next v))) := by
   rcases g with ⟨_ | _, _ | ⟨w, qa⟩, qb, c⟩ <;>
     rs_tie [BObserver.next, ZipObserver.next, absZip, St2.step, St2.guard]
 
 theorem tie_Zip_a_error (g : ZipObserver) (e : Err) :
-    (AObserver.error g e).map (fun r => (absZip r.1, r.2)) = some (St2.step (absZip g) .a (.error e)) := by
+    (AObserver.error g e).map (fun r => (absZip r.1, r.2)) = some (Rs.lift (St2.step (absZip g) .a (.error e))) := by
   rcases g with ⟨_ | _, qa, qb, c⟩ <;> rs_tie [AObserver.error, ZipObserver.error, absZip, St2.step, St2.guard]
 
 theorem tie_Zip_b_error (g : ZipObserver) (e : Err) :
-    (BObserver.error g e).map (fun r => (absZip r.1, r.2)) = some (St2.step (absZip g) .b (.error e)) := by
+    (BObserver.error g e).map (fun r => (absZip r.1, r.2)) = some (Rs.lift (St2.step (absZip g) .b (.error e))) := by
   rcases g with ⟨_ | _, qa, qb, c⟩ <;> rs_tie [BObserver.error, ZipObserver.error, absZip, St2.step, St2.guard]
 
 theorem tie_Zip_a_complete (g : ZipObserver) :
-    (AObserver.complete g).map (fun r => (absZip r.1, r.2)) = some (St2.step (absZip g) .a .complete) := by
+    (AObserver.complete g).map (fun r => (absZip r.1, r.2)) = some (Rs.lift (St2.step (absZip g) .a .complete)) := by
   rcases g with ⟨_ | _, qa, qb, _ | _⟩ <;> rs_tie [AObserver.complete, ZipObserver.complete, absZip, St2.step, St2.guard]
 
 theorem tie_Zip_b_complete (g : ZipObserver) :
-    (BObserver.complete g).map (fun r => (absZip r.1, r.2)) = some (St2.step (absZip g) .b .complete) := by
+    (BObserver.complete g).map (fun r => (absZip r.1, r.2)) = some (Rs.lift (St2.step (absZip g) .b .complete)) := by
   rcases g with ⟨_ | _, qa, qb, _ | _⟩ <;> rs_tie [BObserver.complete, ZipObserver.complete, absZip, St2.step, St2.guard]
 
 
